@@ -20,7 +20,7 @@ use std::collections::{BTreeMap, BTreeSet, HashMap};
 use std::net::Ipv6Addr;
 use std::ops::Bound;
 use std::panic::{catch_unwind, AssertUnwindSafe};
-use tantivy::collector::{Count, DocSetCollector, TopDocs};
+use tantivy::collector::{Count, DocSetCollector, FilterCollector, MultiCollector, TopDocs};
 use tantivy::indexer::NoMergePolicy;
 use tantivy::query::{
     AllQuery, BooleanQuery, BoostQuery, ConstScoreQuery, DisjunctionMaxQuery, EmptyQuery,
@@ -45,12 +45,14 @@ const F_IP: u32 = 8;
 const F_FLAG: u32 = 9;
 const F_BLOB: u32 = 10;
 const F_IFAST: u32 = 11;
-const FIELD_NAMES: [&str; 12] = ["id", "body", "title", "tag", "num", "inum", "score", "when", "ip", "flag", "blob", "ifast"];
+const F_CAT: u32 = 12;
+const FIELD_NAMES: [&str; 13] = ["id", "body", "title", "tag", "num", "inum", "score", "when", "ip", "flag", "blob", "ifast", "cat"];
 
 const K_F4: &str = "C03:msm-ignored-single-should-clause";
 const K_F4M: &str = "C03:msm-ignored-single-must-clause";
 const K_S6: &str = "C03:phrase-slop3-count-vs-score-differ";
 const K_PANIC_PHRASE: &str = "C03:excluded-phrase-scorer-seek-danger-debug-assert";
+const K_IP_OVERFLOW: &str = "C03:ip-range-excluded-bound-overflow";
 const K_S6B: &str = "C03:phrase-slop3-differs-from-budget-meaning";
 
 fn fld(id: u32) -> Field {
@@ -74,6 +76,7 @@ fn build_schema() -> Schema {
     sb.add_bool_field("flag", NumericOptions::default().set_indexed());
     sb.add_bytes_field("blob", BytesOptions::default().set_fast().set_indexed());
     sb.add_i64_field("ifast", NumericOptions::default().set_fast().set_indexed());
+    sb.add_text_field("cat", text("raw", IndexRecordOption::Basic).set_fast(None));
     sb.build()
 }
 
@@ -98,6 +101,8 @@ struct DocSpec {
     flag: Option<bool>,
     blob: Option<Vec<u8>>,
     ifast: Option<i64>,
+    #[serde(default)]
+    cat: Option<String>,
 }
 
 #[derive(Clone, Debug, Default, Serialize, Deserialize)]
@@ -207,6 +212,10 @@ fn analyse(index: &Index, d: &DocSpec) -> MDoc {
     text(F_BODY, &d.body);
     text(F_TITLE, &d.title);
     text(F_TAG, &d.tag);
+    text(F_CAT, &d.cat);
+    if d.cat.is_some() {
+        m.fast.push((F_CAT, 0));
+    }
     let mut val = |f: u32, v: Val, indexed: bool, fast: bool| {
         let t = TermS { f, v };
         if indexed {
@@ -242,6 +251,7 @@ fn to_tantivy_doc(d: &DocSpec) -> TantivyDocument {
     if let Some(v) = d.flag { t.add_bool(fld(F_FLAG), v); }
     if let Some(v) = &d.blob { t.add_bytes(fld(F_BLOB), v); }
     if let Some(v) = d.ifast { t.add_i64(fld(F_IFAST), v); }
+    if let Some(s) = &d.cat { t.add_text(fld(F_CAT), s); }
     t
 }
 
@@ -585,6 +595,12 @@ impl Q {
     fn sig_excluded_phrase(&self) -> bool {
         self.any(&|q| matches!(q, Q::Bool(cs, _) if cs.iter().any(|(o, sub)| *o == Oc::MustNot && sub.any(&|x| matches!(x, Q::Phrase { .. } | Q::PhrasePrefix { .. })))))
     }
+    /// an ip fast-field range whose exclusive upper bound is :: (0) or whose exclusive lower
+    /// bound is ffff:…:ffff (u128::MAX)
+    fn sig_ip_overflow(&self) -> bool {
+        let is = |b: &Bd, v: u128| matches!(b, Bd::Excl(TermS { v: Val::Ip(s), .. }) if s.parse::<u128>().ok() == Some(v));
+        self.any(&|q| matches!(q, Q::Range { f, lo, hi, fast: true, .. } if *f == F_IP && (is(hi, 0) || is(lo, u128::MAX))))
+    }
     /// S6 signature: a phrase of ≥ 3 terms with slop ≥ 1
     fn sig_s6(&self) -> bool {
         self.any(&|q| matches!(q, Q::Phrase { terms, slop, .. } if terms.len() >= 3 && *slop >= 1))
@@ -594,7 +610,7 @@ impl Q {
             Q::Term(t) => format!("term:{}", FIELD_NAMES[t.f as usize]),
             Q::Phrase { terms, slop, .. } => format!("phrase:{}terms:slop{}", terms.len().min(4), (*slop).min(3)),
             Q::PhrasePrefix { terms, .. } => format!("phrase-prefix:{}", terms.len().min(3)),
-            Q::Range { f, fast, inverted, .. } => format!("range:{}:{}", FIELD_NAMES[*f as usize], if *fast { "fast" } else if *inverted { "inverted" } else { "termdict" }),
+            Q::Range { f, fast, inverted, .. } => format!("range:{}:{}", FIELD_NAMES[*f as usize], if *fast { "fast" } else if *inverted { "inverted" } else if *f == F_CAT { "str-fast" } else { "termdict" }),
             Q::TermSet(_) => "term-set".into(),
             Q::Exists(f) => format!("exists:{}", FIELD_NAMES[*f as usize]),
             Q::All => "all".into(),
@@ -775,6 +791,31 @@ fn run_real(searcher: &Searcher, q: &dyn Query, limit: usize) -> RealRun {
         }
         Err(x) => paths.push(("(TopDocs,DocSet,Count)", true, true, e(x.to_string()))),
     }
+    // MultiCollector without / with a scoring collector
+    {
+        let mut mc = MultiCollector::new();
+        let h_set = mc.add_collector(DocSetCollector);
+        let h_cnt = mc.add_collector(Count);
+        match searcher.search(q, &mc) {
+            Ok(mut fruits) => {
+                paths.push(("MultiCollector[DocSet]", false, true, Out::Ids(ids_of(searcher, h_set.extract(&mut fruits).into_iter()))));
+                paths.push(("MultiCollector[Count]", false, true, Out::Count(h_cnt.extract(&mut fruits) as u64)));
+            }
+            Err(x) => paths.push(("MultiCollector", false, true, e(x.to_string()))),
+        }
+        let mut mc = MultiCollector::new();
+        let h_top = mc.add_collector(TopDocs::with_limit(limit).order_by_score());
+        let h_set = mc.add_collector(DocSetCollector);
+        match searcher.search(q, &mc) {
+            Ok(mut fruits) => {
+                paths.push(("MultiCollector[TopDocs] scoring", true, true, Out::Ids(ids_of(searcher, h_top.extract(&mut fruits).into_iter().map(|x| x.1)))));
+                paths.push(("MultiCollector[DocSet] scoring", true, true, Out::Ids(ids_of(searcher, h_set.extract(&mut fruits).into_iter()))));
+            }
+            Err(x) => paths.push(("MultiCollector scoring", true, true, e(x.to_string()))),
+        }
+    }
+    // FilterCollector on the fast field `num` (documents without a value are filtered out)
+    paths.push((FILTERED, false, true, match searcher.search(q, &FilterCollector::new("num".to_string(), filter_pred, DocSetCollector)) { Ok(s) => Out::Ids(ids_of(searcher, s.into_iter())), Err(x) => e(x.to_string()) }));
     paths.push(("Query::count", false, false, match q.count(searcher) { Ok(c) => Out::Count(c as u64), Err(x) => e(x.to_string()) }));
     let mut unsorted = None;
     for (name, cname, scoring) in [("Weight::scorer disabled_from_searcher", "Weight::count disabled_from_searcher", false), ("Weight::scorer enabled_from_searcher", "Weight::count enabled_from_searcher", true)] {
@@ -824,13 +865,19 @@ fn run_real(searcher: &Searcher, q: &dyn Query, limit: usize) -> RealRun {
     RealRun { paths, unsorted }
 }
 
+const FILTERED: &str = "FilterCollector(num)[DocSet]";
+
+fn filter_pred(v: u64) -> bool {
+    v % 3 != 1 && v < (1u64 << 63)
+}
+
 fn parse_ids(s: &str) -> Vec<u64> {
     let mut v = crate::model::parse_nat_list(s).unwrap_or_default();
     v.sort();
     v
 }
 
-fn agrees(o: &Out, ids: &[u64]) -> bool {
+fn agrees_plain(o: &Out, ids: &[u64]) -> bool {
     match o {
         Out::Ids(v) => v == ids,
         Out::Count(c) => *c as usize == ids.len(),
@@ -910,7 +957,10 @@ fn check_queries(ctx: &mut Ctx, spec: &CorpusSpec, b: &Built, qs: &[Q]) {
                 // narrow attribution: the debug assertion `target >= self.doc()` of
                 // PhraseScorer::seek_danger fired on a phrase scorer used as an exclusion set
                 // (Exclude::contains seeks it to a target behind its current document)
-                let key = if msg.contains("phrase_scorer.rs") && msg.contains("should be greater than or equal to doc (") && q.sig_excluded_phrase() { K_PANIC_PHRASE } else { "C03:panic" };
+                let key = if msg.contains("phrase_scorer.rs") && msg.contains("should be greater than or equal to doc (") && q.sig_excluded_phrase() { K_PANIC_PHRASE }
+                    // bound_range_inclusive_ip: `Excluded(0)` as upper / `Excluded(u128::MAX)` as lower bound
+                    else if msg.contains("range_query_fastfield.rs") && msg.contains("with overflow") && q.sig_ip_overflow() { K_IP_OVERFLOW }
+                    else { "C03:panic" };
                 ctx.report.violation("oracle", key, format!("search panicked ({}) for {}", msg, qstrs[i]), case);
                 continue;
             }
@@ -919,11 +969,15 @@ fn check_queries(ctx: &mut Ctx, spec: &CorpusSpec, b: &Built, qs: &[Q]) {
             ctx.report.violation("oracle", "C03:scorer-not-sorted", u.clone(), case.clone());
         }
         let (f4, f4m, s6) = (q.sig_f4(), q.sig_f4m(), q.sig_s6());
+        // the FilterCollector path keeps only documents whose `num` satisfies the predicate
+        let keep = |id: &u64| b.by_id.get(id).map(|d| d.fast.iter().any(|(f, v)| *f == F_NUM && filter_pred(*v as u64))).unwrap_or(false);
+        let filt = |name: &str, ids: &Vec<u64>| -> Vec<u64> { if name == FILTERED { ids.iter().filter(|i| keep(i)).cloned().collect() } else { ids.clone() } };
+        let agrees = |name: &str, o: &Out, ids: &Vec<u64>| -> bool { agrees_plain(o, &filt(name, ids)) };
         let off_ref = real.paths.iter().find(|p| !p.1 && matches!(p.3, Out::Ids(_))).map(|p| p.3.clone());
         let all_ok = real.paths.iter().all(|p| !matches!(p.3, Out::Err(_)));
         // does the implementation model (which mirrors exactly the recorded deviations: the
         // single-clause shortcut and the two slop algorithms) reproduce every real path?
-        let impl_explains = real.paths.iter().all(|p| agrees(&p.3, &mi[p.1 as usize][p.2 as usize]));
+        let impl_explains = real.paths.iter().all(|p| agrees(p.0, &p.3, &mi[p.1 as usize][p.2 as usize]));
         // the scoring-on and scoring-off algorithms themselves disagree on this query
         let slop_on_off = s6 && (mi[1][0] != mi[0][0]);
         let known_key = |differs_from_spec: bool| -> Option<&'static str> {
@@ -940,12 +994,12 @@ fn check_queries(ctx: &mut Ctx, spec: &CorpusSpec, b: &Built, qs: &[Q]) {
                 continue;
             }
             let model_ids = &mi[*scoring as usize][*top as usize];
-            if !agrees(out, &spec_ids) {
+            if !agrees(name, out, &spec_ids) {
                 let what = format!("{name} (scoring {}) gives {}, brute force gives {} for {}", if *scoring { "on" } else { "off" }, out_str(out), short(&spec_ids), qstrs[i]);
                 let key = known_key(true).unwrap_or("C03:result-differs-from-brute-force");
                 ctx.report.violation("oracle", key, what, case.clone());
             }
-            if !agrees(out, model_ids) {
+            if !agrees(name, out, model_ids) {
                 ctx.report.violation("model", "C03:compile-model-vs-implementation", format!("{name}: real {} but compile model gives {} for {}", out_str(out), short(model_ids), qstrs[i]), case.clone());
             }
         }
@@ -953,7 +1007,7 @@ fn check_queries(ctx: &mut Ctx, spec: &CorpusSpec, b: &Built, qs: &[Q]) {
         if all_ok {
             if let Some(Out::Ids(ref_ids)) = &off_ref {
                 for p in &real.paths {
-                    if !agrees(&p.3, ref_ids) {
+                    if !agrees(p.0, &p.3, ref_ids) {
                         let key = known_key(false).unwrap_or(if p.1 { "C03:scoring-on-off-differ" } else { "C03:collectors-disagree" });
                         ctx.report.violation("oracle", key, format!("{} gives {} but DocSetCollector gives {} for {}", p.0, out_str(&p.3), short(ref_ids), qstrs[i]), case.clone());
                     }
@@ -979,6 +1033,7 @@ fn check_queries(ctx: &mut Ctx, spec: &CorpusSpec, b: &Built, qs: &[Q]) {
 // ---------------------------------------------------------------------------------------------
 
 const WORDS: [&str; 24] = ["a", "b", "c", "d", "aa", "ab", "abc", "abd", "b1", "alpha", "alp", "alpine", "beta", "bet", "gamma", "x", "y", "zz", "naïve", "straße", "日本", "日本語", "ça", "élan"];
+const CATS: [&str; 7] = ["a", "ab", "abc", "b", "B", "zz", "ünï"];
 const TAGS: [&str; 8] = ["red", "green", "blue", "re", "Red Blue", "", "gr een", "ünï"];
 
 fn boundary_u64(rng: &mut Rng) -> u64 {
@@ -994,7 +1049,7 @@ fn boundary_secs(rng: &mut Rng) -> i64 {
     *rng.pick(&[-9_000_000_000i64, -86_400, -1, 0, 1, 59, 60, 86_400, 1_000_000_000, 1_700_000_000, 4_000_000_000, 9_000_000_000])
 }
 fn boundary_ip(rng: &mut Rng) -> u128 {
-    *rng.pick(&[1u128, 2, 255, 256, 0xffff_7f00_0001, 0xffff_c0a8_0001, 0xffff_ffff_ffff, 1u128 << 64, (1u128 << 64) + 1, 1u128 << 127, u128::MAX - 1, 0x2001_0db8u128 << 96])
+    *rng.pick(&[0u128, u128::MAX, 1u128, 2, 255, 256, 0xffff_7f00_0001, 0xffff_c0a8_0001, 0xffff_ffff_ffff, 1u128 << 64, (1u128 << 64) + 1, 1u128 << 127, u128::MAX - 1, 0x2001_0db8u128 << 96])
 }
 
 fn gen_text(rng: &mut Rng, heavy: &str) -> String {
@@ -1033,6 +1088,7 @@ fn gen_doc(rng: &mut Rng, id: u64, profile: u64) -> DocSpec {
     if p(rng, 5) { d.flag = Some(rng.chance(1, 2)); }
     if p(rng, 4) { d.blob = Some(match rng.below(4) { 0 => vec![], 1 => vec![0], 2 => vec![0xff, 0], _ => { let k = 1 + rng.usize_below(3); rng.bytes(k) } }); }
     if p(rng, 6) { d.ifast = Some(boundary_i64(rng)); }
+    if p(rng, 6) { d.cat = Some(rng.pick(&CATS).to_string()); }
     d
 }
 
@@ -1093,6 +1149,8 @@ struct Pools {
 fn text_term(rng: &mut Rng, f: u32, pools: &Pools) -> TermS {
     let s = if f == F_TAG {
         if rng.chance(1, 8) { "absent".to_string() } else { rng.pick(&pools.tags).clone() }
+    } else if f == F_CAT {
+        if rng.chance(1, 8) { "aa".to_string() } else { rng.pick(&CATS).to_string() }
     } else if rng.chance(1, 10) { "absentword".to_string() } else { rng.pick(&pools.words).clone() };
     TermS { f, v: Val::Str(s) }
 }
@@ -1139,7 +1197,7 @@ fn gen_bounds(rng: &mut Rng, mk: &mut dyn FnMut(&mut Rng) -> TermS) -> (Bd, Bd) 
 
 fn gen_leaf(rng: &mut Rng, pools: &Pools) -> Q {
     match rng.below(28) {
-        0..=5 => { let f = *rng.pick(&[F_BODY, F_BODY, F_TITLE, F_TAG]); Q::Term(text_term(rng, f, pools)) }
+        0..=5 => { let f = *rng.pick(&[F_BODY, F_BODY, F_BODY, F_TITLE, F_TAG, F_CAT]); Q::Term(text_term(rng, f, pools)) }
         6 => { let f = *rng.pick(&[F_NUM, F_INUM, F_WHEN, F_IP, F_FLAG, F_BLOB, F_IFAST, F_ID]); Q::Term(typed_val(rng, f)) }
         7..=9 => {
             let wide = rng.chance(1, 4); let n = 2 + rng.usize_below(if wide { 3 } else { 1 });
@@ -1158,8 +1216,8 @@ fn gen_leaf(rng: &mut Rng, pools: &Pools) -> Q {
         }
         12..=16 => {
             // ranges: fast path on fast fields, term dictionary path otherwise
-            let (f, fast, inverted) = *rng.pick(&[(F_NUM, true, false), (F_NUM, false, true), (F_INUM, false, false), (F_SCORE, true, false), (F_WHEN, true, false), (F_IP, true, false), (F_IFAST, true, false), (F_IFAST, false, true), (F_TAG, false, false), (F_BODY, false, false), (F_WHEN, false, true), (F_ID, true, false)]);
-            let (lo, hi) = if f == F_TAG || f == F_BODY {
+            let (f, fast, inverted) = *rng.pick(&[(F_NUM, true, false), (F_NUM, false, true), (F_INUM, false, false), (F_SCORE, true, false), (F_WHEN, true, false), (F_IP, true, false), (F_IFAST, true, false), (F_IFAST, false, true), (F_TAG, false, false), (F_BODY, false, false), (F_WHEN, false, true), (F_ID, true, false), (F_CAT, false, false), (F_CAT, false, true)]);
+            let (lo, hi) = if f == F_TAG || f == F_BODY || f == F_CAT {
                 gen_bounds(rng, &mut |r| text_term(r, f, pools))
             } else {
                 gen_bounds(rng, &mut |r| typed_val(r, f))
@@ -1170,7 +1228,7 @@ fn gen_leaf(rng: &mut Rng, pools: &Pools) -> Q {
             let n = rng.usize_below(5);
             Q::TermSet((0..n).map(|_| if rng.chance(1, 3) { let f = *rng.pick(&[F_NUM, F_INUM]); typed_val(rng, f) } else { let f = *rng.pick(&[F_BODY, F_TAG, F_TITLE]); text_term(rng, f, pools) }).collect())
         }
-        19 | 20 => Q::Exists(*rng.pick(&[F_NUM, F_SCORE, F_WHEN, F_IP, F_BLOB, F_IFAST, F_ID])),
+        19 | 20 => Q::Exists(*rng.pick(&[F_NUM, F_SCORE, F_WHEN, F_IP, F_BLOB, F_IFAST, F_ID, F_CAT])),
         21 => Q::All,
         22 => Q::Empty,
         23..=25 => {
